@@ -175,6 +175,10 @@ fn run_history(h: &E2eHistory, c03: bool, runner: crate::fullrun::Runner, obs: &
             obs.class("starts-from-a-preinstalled-state");
             fake.lock().unwrap().ephemeral = seed;
         }
+        if let Some(style) = &h.history.junos_style {
+            obs.class("router-replies-in-a-generated-style");
+            fake.lock().unwrap().style = Some(style.clone());
+        }
     }
     for r in 0..h.history.runs.len() {
         let (stmts, db, exprs) = world(h, r, &names);
